@@ -186,7 +186,7 @@ type opndKind struct {
 var c07Operands = []opndKind{
 	{"r8", "CL", false}, {"r16", "DX", false}, {"r32", "EBX", false}, {"acc8", "AL", false}, {"acc16", "AX", false}, {"acc32", "EAX", false}, {"sreg", "ES", false}, {"creg", "CR0", false},
 	{"imm-small", "5", false}, {"imm-mid", "0x3f8", false}, {"imm-large", "0x12345", false}, {"string", "\"ab\"", false},
-	{"mem", "[BX]", false}, {"mem8", "BYTE [SI+4]", false}, {"mem32", "DWORD [EBX+8]", false},
+	{"mem", "[BX]", false}, {"mem-e", "[ESI]", false}, {"mem8", "BYTE [SI+4]", false}, {"mem32", "DWORD [EBX+8]", false},
 	{"label", "deflabel", false}, {"equ", "DEFEQU", false}, {"undef-label", "nolabel", true}, {"undef-mem", "[nowhere]", true}, {"undef-expr", "NOEQU+1", true}, {"far", "8:0x10", false},
 	{"far-undef", "8:nowhere", true}, {"far-dword-undef", "DWORD 2*8:nowhere", true}, {"undef-mem-disp", "[BX+nowhere]", true},
 }
@@ -329,6 +329,13 @@ func genC07(env *Env, r *Rand, full bool) []Case {
 		for _, l := range []string{"hlt", "Ret", "nop", "cli", "HTL", "NOPE", "foo", "foo bar", "MOVE AX,1", "JMPP deflabel", "ADDD", "mov ax,1", "Mov AX,1", "mOV AX,1", "HLT X", "NOP NOP", "db 1", "Db 1",
 			"deflabel", "after", "DEFEQU", "AX", "5", "MOV", "hlt ; c", "_x", "x1", "RETT", "STII", "org 0", "equ", "X1 equ 5", "HLT:", "MOV AX 1", "MOV AX;1", "MOV,AX,1"} {
 			cases = append(cases, &SilentCase{Mode: mode, Stmt: l, Mn: strings.Fields(l + " .")[0], Shape: "notstmt:" + strings.ReplaceAll(l, " ", "_"), Expect: "invalid", Cell_: "notstmt " + l})
+		}
+		// memory operands whose 16-bit register combination does not exist (only BX/BP + SI/DI do)
+		for _, m := range []string{"[DX+SI]", "[SI+DI]", "[BX+CX]", "[BX+BP]", "[CX+SI+2]", "[AX+BX]", "[DX+DI]", "[BX+DX+1]", "[SI+CX]", "[BP+AX]"} {
+			for _, f := range []string{"MOV AX,%s", "MOV %s,AL", "ADD AX,%s", "SUB %s,CX", "NOT WORD %s", "PUSH WORD %s", "CMP BYTE %s,1", "MOV WORD %s,5", "SHL BYTE %s,1", "XOR DL,%s"} {
+				st := fmt.Sprintf(f, m)
+				cases = append(cases, &SilentCase{Mode: mode, Stmt: st, Mn: strings.Fields(st)[0], Shape: "badpair:" + m, Expect: "invalid", Cell_: "badpair " + strings.Fields(st)[0] + " " + m})
+			}
 		}
 		// forward reference in data after a branch has pre-seeded the symbol table
 		cases = append(cases, &SilentCase{Mode: mode, Stmt: "JNZ after\n\tDW after", Mn: "DW", Shape: "data:forward-after-branch", Expect: "fwd", Cell_: "data forward-after-branch"})
